@@ -1,0 +1,85 @@
+//go:build verif
+
+package version
+
+import (
+	"io/fs"
+
+	"github.com/lindb/lindb/pkg/bufioutil"
+)
+
+// VerifSeams are the file system seams of the version set (verification harness only).
+type VerifSeams struct {
+	NewBufferWriter func(fileName string) (bufioutil.BufioWriter, error)
+	NewBufferReader func(fileName string) (bufioutil.BufioEntryReader, error)
+	WriteFile       func(name string, data []byte, perm fs.FileMode) error
+	ReadFile        func(name string) ([]byte, error)
+	Rename          func(oldpath, newpath string) error
+}
+
+// VerifGetSeams returns the current seams.
+func VerifGetSeams() VerifSeams {
+	return VerifSeams{
+		NewBufferWriter: newBufferWriterFunc,
+		NewBufferReader: newBufferReaderFunc,
+		WriteFile:       writeFileFunc,
+		ReadFile:        readFileFunc,
+		Rename:          renameFunc,
+	}
+}
+
+// VerifSetSeams replaces the seams.
+func VerifSetSeams(s VerifSeams) {
+	newBufferWriterFunc = s.NewBufferWriter
+	newBufferReaderFunc = s.NewBufferReader
+	writeFileFunc = s.WriteFile
+	readFileFunc = s.ReadFile
+	renameFunc = s.Rename
+}
+
+// VerifLog is a decoded edit log entry.
+type VerifLog struct {
+	Kind     string // newFile deleteFile nextFileNumber newRollupFile deleteRollupFile newReferenceFile deleteReferenceFile sequence
+	Level    int32
+	File     int64
+	MinKey   uint32
+	MaxKey   uint32
+	Size     uint32
+	Interval int64
+	Store    string
+	FamilyID int
+	Leader   int32
+	Seq      int64
+}
+
+// VerifDecodeEditLog decodes one manifest record.
+func VerifDecodeEditLog(record []byte) (familyID int, logs []VerifLog, err error) {
+	el := newEmptyEditLog()
+	if err = el.unmarshal(record); err != nil {
+		return 0, nil, err
+	}
+	for _, l := range el.GetLogs() {
+		switch v := l.(type) {
+		case *newFile:
+			logs = append(logs, VerifLog{Kind: "newFile", Level: v.level, File: v.file.GetFileNumber().Int64(),
+				MinKey: v.file.GetMinKey(), MaxKey: v.file.GetMaxKey(), Size: v.file.GetFileSize()})
+		case *deleteFile:
+			logs = append(logs, VerifLog{Kind: "deleteFile", Level: v.level, File: v.fileNumber.Int64()})
+		case *nextFileNumber:
+			logs = append(logs, VerifLog{Kind: "nextFileNumber", File: v.fileNumber.Int64()})
+		case *newRollupFile:
+			logs = append(logs, VerifLog{Kind: "newRollupFile", File: v.fileNumber.Int64(), Interval: int64(v.interval)})
+		case *deleteRollupFile:
+			logs = append(logs, VerifLog{Kind: "deleteRollupFile", File: v.fileNumber.Int64(), Interval: int64(v.interval)})
+		case *newReferenceFile:
+			logs = append(logs, VerifLog{Kind: "newReferenceFile", Store: v.store, FamilyID: int(v.familyID), File: v.fileNumber.Int64()})
+		case *deleteReferenceFile:
+			logs = append(logs, VerifLog{Kind: "deleteReferenceFile", Store: v.store, FamilyID: int(v.familyID), File: v.fileNumber.Int64()})
+		case *sequence:
+			logs = append(logs, VerifLog{Kind: "sequence", Leader: v.leader, Seq: v.seq})
+		default:
+			logs = append(logs, VerifLog{Kind: "unknown"})
+		}
+	}
+	return int(el.FamilyID()), logs, nil
+}
